@@ -85,6 +85,16 @@ Dispatch(e) ==
     \/ e.op = "StreamOut"     /\ StreamOut(k)
     \/ e.op = "StreamIn"      /\ StreamIn(k, a.text)
     \/ e.op = "GetLine"       /\ GetLine(k, a.text, a.delim, a.rv)
+    (* round 3 (advisory stage); an observed value the standard leaves open is taken from the event, as for rvalues *)
+    \/ e.op = "Extract"       /\ Extract(k, a.text, a.w, a.skip, a.ok, IF e.res.exc = "none" THEN e.res.val.eof ELSE FALSE)
+    \/ e.op = "GetLineX"      /\ GetLineX(k, a.text, a.delim, a.ok)
+    \/ e.op = "Put"           /\ Put(k, a.w, a.fill, a.adj)
+    \/ e.op = "JsonOut"       /\ JsonOut(k)
+    \/ e.op = "JsonIn"        /\ JsonIn(k, a.text)
+    \/ e.op = "MapKey"        /\ MapKey(k, IF e.res.exc = "none" THEN e.res.val.heq ELSE TRUE)
+    \/ e.op = "Payload"       /\ Payload(k, a.kind)
+    \/ e.op = "CrossTo"       /\ CrossTo(k, a.dst, a.route)
+    \/ e.op = "CrossFrom"     /\ CrossFrom(k, a.dst, a.route, a.src)
 
 (* equal characters => equal hash, whatever the history, the stale cells, the layout, the capacity *)
 HKey(k)   == <<cf'.cw, cf'.ct, obj'[k]>>
@@ -104,7 +114,9 @@ TNext ==
         /\ IF l = ExplainAt
              THEN /\ PrintT(<<"EXPECTED", last'.res, ProjAll', "hash", HKnown(1), HKnown(2)>>)
                   /\ hmap' = hmap
-             ELSE /\ last'.res = e.res
+             ELSE /\ IF e.res.exc = "terminated"      \* XTL_NO_EXCEPTIONS build: the failing check ended the program
+                       THEN last'.res.exc \in {"length_error", "out_of_range"}
+                       ELSE last'.res = e.res
                   /\ ProjAll' = e.st
                   /\ HashStep(e)
     /\ l' = l + 1
